@@ -60,6 +60,8 @@ def gen_case(seed, i, tier, focus='default', loading=False, tag='seq'):
             knobs['lazy_attrs'] = True
         if r.chance(0.3):
             knobs['lazy_sets'] = True
+        if r.chance(0.3):
+            knobs['lazy_refs'] = True       # reference attributes that own the foreign key columns are lazy
         if r.chance(0.6):
             knobs['max_params_count'] = r.choice([2, 3, 5])
         knobs['nplus1'] = r.choice([None, 0, 1, 3])
